@@ -894,3 +894,20 @@ def truediv_replay():
         return None
 
     return replay
+
+
+def from_parts_replay():
+    def replay(inputs):
+        import specs.rfc6901 as pspec
+
+        ptr = importlib.import_module("jsonpath.pointer")
+        parts = [real(x) for x in inputs["parts"]]
+        if not all(isinstance(p, (int, str)) and not isinstance(p, bool) for p in parts):
+            return None
+        got = _outcome(lambda: (lambda r: (r.parts, str(r)))(ptr.JSONPointer.from_parts(parts, unicode_escape=False, uri_decode=False)))
+        want = _outcome(lambda: (pspec.from_parts_tokens(parts), pspec.pointer_text(pspec.from_parts_tokens(parts))))
+        if got != want:
+            return f"JSONPointer.from_parts({parts!r}, no decoding) {got[0]} {got[1]!r} but the tokens' texts and their RFC 6901 spelling are {want[0]} {want[1]!r}"
+        return None
+
+    return replay
